@@ -24,7 +24,7 @@ import extract  # noqa: E402
 from rstok import ExtractError  # noqa: E402
 
 VERUS_FLAGS = ["--triggers-mode", "silent", "--multiple-errors", "50", "--error-format=json",
-               "--output-json", "--time"]
+               "--output-json", "--time", "--rlimit", "60"]
 
 
 def sha_tree():
@@ -198,7 +198,7 @@ def compute(tier):
             still = None
             for k in (1, 2):
                 alt = run_verus(os.path.join(cdir, "woven.rs"),
-                                ["--smt-option", "smt.random_seed=%d" % (seed + k), "--rlimit", "20"])
+                                ["--smt-option", "smt.random_seed=%d" % (seed + k), "--rlimit", "120"])
                 f2, _, _ = map_diags(meta, alt["diags"], "woven.rs")
                 still = set(f2) if still is None else (still & set(f2))
             for oid in list(failed):
